@@ -308,7 +308,7 @@ EXTRA = {
     "C01": " Level differences up to 495 kJ/mol (just below the cap) are covered by records whose entries are logged as mantissa and "
            "exponent (m * 2^e / 36) and compared exactly by SqraOps!QWide; shift invariance is also tried with offsets of +-tens of "
            "thousands of kJ/mol. "
-           "Cell volumes are given in units of 2^-30, 2^-45 or 2^20 (exact rescaling), so tiny and huge positive volumes are covered.",
+           "Cell volumes are given in units of 2^-30, 2^-45 or 2^20 (exact rescaling), so tiny and huge positive volumes are covered. The position of the one-sided cap is checked on a two-cell system with E_0 - E_1 in {499, 500, 500.5, 503, 650} kJ/mol.",
     "C02": " Every second grid is first asked for the partial (position-only / orientation-only) matrices of workflow run_grid; the "
            "total volumes are asked twice; a rotation grid with faces below 1e-5 (randomQ_44) is part of the plan.",
     "C03": " Before the checked read each grid goes through a getter history: the documented numerical estimate of the areas is "
